@@ -26,8 +26,10 @@ CORE_OPS = [("append", True), ("shift_x", 1.0), ("shift_y", 2.0), ("scale_x", 0.
             ("normalize_y", 0.0, 10.0), ("repeat", 2), ("truncate_by_value", "absA"), ("truncate_by_index", 1, None),
             ("recreate", "linfix", 2), ("recreate", "spline", 2), ("recreate", "expada", 3),
             ("integral_match", "trapezoid", "rectangle"), ("interpolate_n", 7, "linear"), ("interpolate_n", 7, "spline"),
-            ("interpolate_grid", True, "linear"), ("smooth", 0.5), ("trend", "half-t", False), ("trend", "sin", True),
+            ("interpolate_grid", True, "linear"), ("interpolate_both", 9, "linear"), ("smooth", 0.5), ("trend", "half-t", False), ("trend", "sin", True),
             ("noise", "scalar"), ("restore_original",), ("observe", "slice_by_value"), ("observe", "to_function")]
+BISIM2 = [("shift_y", 2.0), ("scale_y", -1.0), ("scale_x", 0.5), ("smooth", 0.5), ("smooth", 0), ("observe", "to_function"),
+          ("recreate", "linfix", 2), ("interpolate_n", 7, "spline"), ("normalize_y", 0.0, 10.0)]
 PIPELINE = [("append", True), ("recreate", "expada", 3), ("integral_match", "trapezoid", "rectangle"), ("smooth", 0.5),
             ("repeat", 2), ("trend", "half-t", False), ("noise", "scalar")]
 
@@ -70,6 +72,40 @@ def bisimulation(r):
         if res[0] != res[1]:
             fails.append(fail("restore-not-bisimilar-to-fresh-object", {"next_op": op}, {"next_op": op[0]}))
             break
+    if fails:
+        return fails
+    # two further steps over a small alphabet (every kind that fits or evaluates a spline, rescales or reshapes)
+    for op1 in BISIM2:
+        for op2 in BISIM2:
+            ra, rb = copy.deepcopy(r.wv), copy.deepcopy(fresh)
+            res = []
+            for w in (ra, rb):
+                rr = WO.Runner.__new__(WO.Runner)
+                rr.wv = w
+                rr.model = r.model.copy()
+                with warnings.catch_warnings():
+                    warnings.simplefilter("ignore")
+                    with WO.NoiseSeam():
+                        try:
+                            for op in (op1, op2):
+                                c = rr.concretize(op)
+                                if c is None:
+                                    raise LookupError("disabled")
+                                if c[0] == "observe":
+                                    rr._observe(c[1][0])
+                                else:
+                                    getattr(w, c[0])(*c[1], **c[2])
+                                if op[0] in ("recreate", "interpolate_n"):
+                                    gx, gy = w.get()
+                                    rr.model.reshape_to(WO.fl(gx), WO.fl(gy))
+                            ev = w.to_function(0.5)(np.asarray(w.get()[0], dtype=float)).tobytes() if len(w) >= 4 else b""
+                            res.append((WO.observables(w), ev))
+                        except LookupError:
+                            res.append("disabled")
+                        except Exception as e:  # noqa
+                            res.append(("exc", type(e).__name__))
+            if res[0] != res[1]:
+                return [fail("restore-not-bisimilar-to-fresh-object", {"next_ops": [op1, op2]}, {"next_op": op2[0], "steps": 2})]
     return fails
 
 
